@@ -418,3 +418,234 @@ fn c15_incomparable() {
         kani::cover!(!same_side);
     }
 }
+
+// ---------------------------------------------------------------- C14: well-formedness, accessors, conversions
+use crate::error::IntervalError;
+
+#[kani::proof]
+fn c14_new_wellformed_i8() {
+    let l: i8 = kani::any();
+    let h: i8 = kani::any();
+    match Interval::new(l, h) {
+        Ok(i) => {
+            assert!(l <= h);
+            assert!(i == Interval::TwoSided(l, h));
+            kani::cover!(l == h, "degenerate accepted");
+        }
+        Err(IntervalError::InvalidBounds) => { assert!(l > h); kani::cover!(true, "inverted rejected"); }
+        Err(_) => assert!(false, "wrong error variant"),
+    }
+}
+// floats, all bit patterns (NaN, +-0, +-inf): Ok => low <= high
+#[kani::proof]
+fn c14_new_wellformed_f32() {
+    let l: f32 = kani::any();
+    let h: f32 = kani::any();
+    match Interval::new(l, h) {
+        Ok(Interval::TwoSided(a, b)) => {
+            assert!(a <= b, "Ok interval with low <= high false");
+            assert!(a.to_bits() == l.to_bits() && b.to_bits() == h.to_bits());
+            kani::cover!(l == 0.0 && h == 0.0 && l.to_bits() != h.to_bits(), "+-0");
+            kani::cover!(l == f32::NEG_INFINITY && h == f32::INFINITY);
+        }
+        Ok(_) => assert!(false, "wrong kind"),
+        Err(IntervalError::InvalidBounds) => { assert!(!(l <= h)); kani::cover!(l > h); }
+        Err(_) => assert!(false, "wrong error variant"),
+    }
+}
+#[kani::proof]
+fn c14_try_from_tuple() {
+    let l: i8 = kani::any();
+    let h: i8 = kani::any();
+    match Interval::try_from((l, h)) {
+        Ok(i) => { assert!(l <= h && i == Interval::TwoSided(l, h)); kani::cover!(true, "ok"); }
+        Err(IntervalError::InvalidBounds) => { assert!(l > h); kani::cover!(true, "err"); }
+        Err(_) => assert!(false, "wrong error variant"),
+    }
+    let lf: f32 = kani::any();
+    let hf: f32 = kani::any();
+    if let Ok(Interval::TwoSided(a, b)) = Interval::try_from((lf, hf)) { assert!(a <= b); }
+}
+#[kani::proof]
+fn c14_try_from_option_pair_roundtrip() {
+    let l: Option<i8> = kani::any();
+    let h: Option<i8> = kani::any();
+    match Interval::try_from((l, h)) {
+        Ok(i) => {
+            match (l, h) {
+                (Some(a), Some(b)) => assert!(a <= b && i == Interval::TwoSided(a, b)),
+                (Some(a), None) => assert!(i == Interval::UpperOneSided(a)),
+                (None, Some(b)) => assert!(i == Interval::LowerOneSided(b)),
+                (None, None) => assert!(false, "doubly unbounded accepted"),
+            }
+            // and back: lossless
+            let back: (Option<i8>, Option<i8>) = i.into();
+            assert!(back == (l, h));
+            kani::cover!(l.is_none());
+            kani::cover!(h.is_none());
+        }
+        Err(IntervalError::EmptyInterval) => { assert!(l.is_none() && h.is_none()); kani::cover!(true, "empty"); }
+        Err(IntervalError::InvalidBounds) => { assert!(matches!((l, h), (Some(a), Some(b)) if a > b)); kani::cover!(true, "inverted"); }
+    }
+    // round trip from every well-formed interval
+    let i = any_interval_i8(any_kind());
+    let pair: (Option<i8>, Option<i8>) = i.into();
+    assert!(matches!(Interval::try_from(pair), Ok(j) if j == i));
+}
+#[kani::proof]
+fn c14_range_conversions() {
+    let l: i8 = kani::any();
+    let h: i8 = kani::any();
+    match Interval::try_from(l..=h) {
+        Ok(i) => { assert!(l <= h && i == Interval::TwoSided(l, h)); kani::cover!(true, "ok"); }
+        Err(IntervalError::InvalidBounds) => { assert!(l > h); kani::cover!(true, "err"); }
+        Err(_) => assert!(false),
+    }
+    assert!(Interval::from(l..) == Interval::UpperOneSided(l));
+    assert!(Interval::from(..=h) == Interval::LowerOneSided(h));
+    assert!(Interval::new_upper(l) == Interval::UpperOneSided(l));
+    assert!(Interval::new_lower(h) == Interval::LowerOneSided(h));
+}
+#[kani::proof]
+fn c14_accessors_exact() {
+    let i = any_interval_i8(any_kind());
+    let (l, h) = (lo_of(&i), hi_of(&i));
+    assert!(i.left().copied() == l && i.right().copied() == h);
+    assert!(i.low() == l && i.high() == h);
+    assert!(i.low_as_ref().copied() == l && i.high_as_ref().copied() == h);
+    assert!(i.low_i() == l.unwrap_or(i8::MIN) && i.high_i() == h.unwrap_or(i8::MAX));
+    // kind predicates: exactly one kind; one_sided = !two_sided
+    let (two, up, lo) = (i.is_two_sided(), i.is_upper(), i.is_lower());
+    assert!((two as u8) + (up as u8) + (lo as u8) == 1);
+    assert!(i.is_one_sided() == !two);
+    assert!(two == (l.is_some() && h.is_some()) && up == (l.is_some() && h.is_none()) && lo == (l.is_none() && h.is_some()));
+    // degenerate <=> two-sided with equal bounds; width = high - low iff two-sided
+    assert!(i.is_degenerate() == (two && l == h));
+    if let (Some(a), Some(b)) = (l, h) {
+        if (b as i16 - a as i16) <= 127 { assert!(i.width() == Some(b - a)); assert!(i.is_degenerate() == (i.width() == Some(0))); }
+    } else {
+        assert!(i.width().is_none());
+    }
+    // copies compare equal
+    let c = i;
+    assert!(c == i && i.clone() == i);
+    kani::cover!(two); kani::cover!(up); kani::cover!(lo);
+}
+#[kani::proof]
+fn c14_unsigned_projections() {
+    let a: u8 = kani::any();
+    let b: u8 = kani::any();
+    let k = any_kind();
+    let i = match k { 0 => { kani::assume(a <= b); Interval::TwoSided(a, b) } 1 => Interval::UpperOneSided(a), _ => Interval::LowerOneSided(a) };
+    match i {
+        Interval::TwoSided(l, h) => assert!(i.low_u() == l && i.high_u() == h),
+        Interval::UpperOneSided(l) => assert!(i.low_u() == l && i.high_u() == u8::MAX),
+        Interval::LowerOneSided(h) => assert!(i.low_u() == 0 && i.high_u() == h),
+    }
+    kani::cover!(k == 2);
+}
+#[kani::proof]
+fn c14_float_projections() {
+    let a: f32 = kani::any();
+    let b: f32 = kani::any();
+    let k = any_kind();
+    let i = match k { 0 => Interval::TwoSided(a, b), 1 => Interval::UpperOneSided(a), _ => Interval::LowerOneSided(a) };
+    match i {
+        Interval::TwoSided(l, h) => assert!(i.low_f().to_bits() == l.to_bits() && i.high_f().to_bits() == h.to_bits()),
+        Interval::UpperOneSided(l) => assert!(i.low_f().to_bits() == l.to_bits() && i.high_f() == f32::INFINITY),
+        Interval::LowerOneSided(h) => assert!(i.low_f() == f32::NEG_INFINITY && i.high_f().to_bits() == h.to_bits()),
+    }
+    let t: (f32, f32) = i.into();
+    assert!(t.0.to_bits() == i.low_f().to_bits() && t.1.to_bits() == i.high_f().to_bits());
+    let a64: f64 = kani::any();
+    let t64: (f64, f64) = Interval::LowerOneSided(a64).into();
+    assert!(t64.0 == f64::NEG_INFINITY && t64.1.to_bits() == a64.to_bits());
+    let t64: (f64, f64) = Interval::UpperOneSided(a64).into();
+    assert!(t64.1 == f64::INFINITY && t64.0.to_bits() == a64.to_bits());
+    kani::cover!(k == 0 && a == 0.0 && a.is_sign_negative(), "-0 bound");
+}
+// macro-generated From<Interval<X>> for (X, X), every integer type
+macro_rules! tuple_conv_checks {
+    ($($t:ty),*) => { $( {
+        let a: $t = kani::any();
+        let b: $t = kani::any();
+        let t: ($t, $t) = Interval::TwoSided(a, b).into();
+        assert!(t == (a, b));
+        let t: ($t, $t) = Interval::UpperOneSided(a).into();
+        assert!(t == (a, <$t>::MAX));
+        let t: ($t, $t) = Interval::LowerOneSided(b).into();
+        assert!(t == (<$t>::MIN, b));
+        // round trip through the fallible constructor
+        if a <= b { assert!(matches!(Interval::try_from((a, b)), Ok(i) if <($t, $t)>::from(i) == (a, b))); }
+    } )* };
+}
+#[kani::proof]
+fn c14_tuple_conversions_all_ints() {
+    tuple_conv_checks!(i8, i16, i32, i64, u8, u16, u32, u64, isize, usize);
+    kani::cover!(true);
+}
+// 128-bit types separately (tuple `==` on 128-bit pairs crashes kani-compiler 0.68: field-wise comparison instead)
+#[kani::proof]
+fn c14_tuple_conversions_128() {
+    let a: i128 = kani::any();
+    let t: (i128, i128) = Interval::UpperOneSided(a).into();
+    assert!(t.0 == a && t.1 == i128::MAX);
+    let t: (i128, i128) = Interval::LowerOneSided(a).into();
+    assert!(t.1 == a && t.0 == i128::MIN);
+    let t: (i128, i128) = Interval::TwoSided(a, a).into();
+    assert!(t.1 == a && t.0 == a);
+    let b: u128 = kani::any();
+    let t: (u128, u128) = Interval::UpperOneSided(b).into();
+    assert!(t.0 == b && t.1 == u128::MAX);
+    let t: (u128, u128) = Interval::LowerOneSided(b).into();
+    assert!(t.1 == b && t.0 == u128::MIN);
+    let t: (u128, u128) = Interval::TwoSided(b, b).into();
+    assert!(t.1 == b && t.0 == b);
+    kani::cover!(true);
+}
+// different kinds with the same bound are never equal; equality is bound-wise within a kind
+#[kani::proof]
+fn c14_eq_is_kind_and_bounds() {
+    let a = any_interval_i8(any_kind());
+    let b = any_interval_i8(any_kind());
+    let same_kind = (a.is_two_sided() && b.is_two_sided()) || (a.is_upper() && b.is_upper()) || (a.is_lower() && b.is_lower());
+    assert!((a == b) == (same_kind && lo_of(&a) == lo_of(&b) && hi_of(&a) == hi_of(&b)));
+    let x: i8 = kani::any();
+    assert!(Interval::UpperOneSided(x) != Interval::LowerOneSided(x));
+    assert!(Interval::TwoSided(x, x) != Interval::LowerOneSided(x) && Interval::TwoSided(x, x) != Interval::UpperOneSided(x));
+    kani::cover!(a == b);
+}
+// Hash: a recording hasher sees the same write sequence for equal intervals, and a kind tag first
+struct Rec { buf: [u8; 24], n: usize }
+impl core::hash::Hasher for Rec {
+    fn finish(&self) -> u64 { 0 }
+    fn write(&mut self, bytes: &[u8]) {
+        let mut i = 0;
+        while i < bytes.len() { if self.n < 24 { self.buf[self.n] = bytes[i]; self.n += 1; } i += 1; }
+    }
+}
+fn rec_of(i: &Interval<i8>) -> Rec {
+    use core::hash::Hash;
+    let mut r = Rec { buf: [0; 24], n: 0 };
+    i.hash(&mut r);
+    r
+}
+#[kani::proof]
+#[kani::unwind(26)]
+fn c14_hash_consistent_with_eq() {
+    let a = any_interval_i8(any_kind());
+    let b = any_interval_i8(any_kind());
+    let (ra, rb) = (rec_of(&a), rec_of(&b));
+    if a == b {
+        assert!(ra.n == rb.n);
+        let mut i = 0;
+        while i < 24 { assert!(ra.buf[i] == rb.buf[i]); i += 1; }
+        kani::cover!(true, "equal pair");
+    }
+    // the three kinds write distinct leading tags
+    let same_kind = (a.is_two_sided() && b.is_two_sided()) || (a.is_upper() && b.is_upper()) || (a.is_lower() && b.is_lower());
+    if !same_kind {
+        assert!(ra.buf[0] != rb.buf[0] || ra.buf[1] != rb.buf[1] || ra.buf[2] != rb.buf[2] || ra.buf[3] != rb.buf[3]);
+        kani::cover!(true, "different kinds");
+    }
+}
